@@ -107,7 +107,9 @@ var uuids = []string{"550e8400-e29b-41d4-a716-446655440000", "550E8400-E29B-41D4
 	"550e8400-e29b-41d4-a716-446655440000 ", "550e8400-e29b-41d4-a716-44665544000g", "550e840-0e29b-41d4-a716-446655440000", "00000000-0000-0000-0000-000000000000", "",
 	"x550e8400-e29b-41d4-a716-446655440000", "550e8400-e29b-41d4-a716-446655440000x", "-550e8400-e29b-41d4-a716-446655440000", "550e8400-e29b-41d4-a716-446655440000-", "é50e8400-e29b-41d4-a716-446655440000"}
 
-var urls = []string{"http://example.com", "https://a.b/c?d=e", "example.com", "http://", "://x", "ftp://host", "http:/x", "mailto:a@b", "http://[::1]:80/", "", "a b://c", "/rel/path", "http://a b", "h://h"}
+var urls = []string{"http://example.com", "https://a.b/c?d=e", "example.com", "http://", "://x", "ftp://host", "http:/x", "mailto:a@b", "http://[::1]:80/", "", "a b://c", "/rel/path", "http://a b", "h://h",
+	"http://example.com#top", "https://example.com#", "http://[::1]#f", "http://example.com#a?b", "http://h/p#f", "http://h?q#f", "HTTP://EXAMPLE.COM",
+	"http://user:pw@host:8080/p?q=1#f", "http://example.com/%zz", "http://example.com?%zz", "http://host:port/", "//host/path", "http:///path", "http://host#%zz", "urn:isbn:0", "http://h\x7f"}
 
 func coqBoolT(b bool) string { return eng.CoqBool(b) }
 
